@@ -123,6 +123,8 @@ def run(F, chk):
         check_selection_closures(F, b, G6)
     check_pushes(F, G3)
     check_marker(F, G4, sf)
+    G9 = chk.rule('G9', 'both matchers quantify over a filter collection only with `any` (some positive / no negative / some event filter matches), never all/find/count')
+    check_quantifiers(F, G9, sf)
 
 
 ALL_KINDS = frozenset(['Positive', 'Negative', 'Marker', 'Event'])
@@ -383,3 +385,50 @@ def check_marker(F, G4, sf):
             G4.violation(('marker-used', b.path), 'FilterKind::Marker is consulted in %s: marker filters must have no effect on selection' % b.path, where=b.loc(None))
         else:
             G4.ok(sample={'function': b.path, 'kinds_consulted': sorted(kinds)})
+
+
+QUANT = re.compile(r'Iterator::(any|all|find|find_map|position|rposition|count|filter|filter_map|fold|try_fold|for_each|map|max_by\w*|min_by\w*|nth|last|skip\w*|take\w*|step_by|rev|next|sum|product|reduce|partition|collect|enumerate)$')
+
+
+def check_quantifiers(F, G9, sf):
+    targets = []
+    for b in sf:
+        targets.append(b)
+    for b in F.order:
+        if b.crate == 'lib' and b.kind != 'closure' and any(t.startswith('&' + FKC) for t in b.arg_types()) and b.ret_type() == 'bool':
+            targets.append(b)
+    n = 0
+    for b in targets:
+        cfg = CFG(b)
+        E = ExprBuilder(cfg, fold_named=True)
+        G9.fn(b.path)
+        for blk in b.calls():
+            t = blk.term
+            p = t.callee.path
+            if not QUANT.search(p) or not t.args:
+                continue
+            a0 = t.args[0].ty or ''
+            if FILTER not in a0 or 'slice::Iter<' not in a0:
+                continue
+            m = QUANT.search(p).group(1)
+            # only quantifications whose closure consults Filter::matches are decisions about messages
+            decides = False
+            for a in t.args[1:]:
+                if '{closure@' in (a.ty or ''):
+                    import comparators
+                    cl = comparators.closure_path_of(F, b, a)
+                    if cl is not None and any(x.term.callee.path.endswith('Filter::matches') for x in cl.calls()):
+                        decides = True
+            if not decides:
+                continue
+            n += 1
+            G9.sites += 1
+            src = show(E.operand(t.args[0]))
+            kind = re.search(r'FilterKind::(\w+)\{', src)
+            if m == 'any':
+                G9.ok(sample={'function': b.path, 'at': b.loc(t.sp), 'quantifier': 'any', 'over': kind.group(1) if kind else src[:50]})
+            else:
+                G9.violation(('quantifier', b.path, m, kind.group(1) if kind else 'x'),
+                             '%s decides with `%s(matches)` over the %s filters at %s: the specified rule is "some filter of the kind matches" (any), `%s` changes the decision as soon as several filters of that kind exist' %
+                             (b.path, m, kind.group(1) if kind else 'selected', b.loc(t.sp), m), where=b.loc(t.sp))
+    G9.floor('quantifications over filter collections with Filter::matches', n, 5)
